@@ -812,7 +812,7 @@ def guess_fileformat(fileorname, fileformat=None):
         else:
             name = fileorname.name
         return os.path.splitext(name)[-1][1:]
-    except (AttributeError, ValueError, IndexError):
+    except (AttributeError, TypeError, ValueError, IndexError):
         raise ValueError(
             "Cannot guess a file format from arguments. Please specify the format manually.")
 
@@ -850,7 +850,9 @@ def _process_graph_io_arguments(iofile, graph_type, file_format, multi_edges):
     if file_format == 'autodetect':
         try:
             extension = os.path.splitext(iofile.name)[-1][1:]
-        except AttributeError:
+        except (AttributeError, TypeError):
+            # no name, or a name that is not a file name (the descriptor
+            # number of tempfile.TemporaryFile / os.fdopen, None)
             raise ValueError(
                 "Cannot guess a file format from an IO stream with no name. Please specify the format manually."
             )
